@@ -6,4 +6,4 @@ Extraction Language OCaml.
 Definition x_gv := GameVersion.parse.
 Definition x_vcmp := vcmp.
 Definition x_veq := veq.
-Extraction "model.ml" vehicle_read vehicle_write vehicle_display spec_read x_gv x_vcmp x_veq.
+Extraction "model.ml" vehicle_read vehicle_write vehicle_display spec_read is_mod is_builtin x_gv x_vcmp x_veq.
